@@ -81,7 +81,7 @@ func newStack(p *SPlan, noUp bool, o *sim.Outcome) *stack {
 		// cannot succeed: a failure of the underlying agent surfaces as an error. (A remove request for
 		// something the agent does not hold fails anyway - the shim expects that for in-memory certificates.)
 		switch fault {
-		case refagent.FaultFail, refagent.FaultEmpty, refagent.FaultGarbage, refagent.FaultWrongType, refagent.FaultTruncBody:
+		case refagent.FaultFail, refagent.FaultFailKind, refagent.FaultEmpty, refagent.FaultGarbage, refagent.FaultWrongType, refagent.FaultTruncBody:
 			honestOK := false
 			switch kind {
 			case "list":
@@ -675,6 +675,12 @@ func runHistory(p *SPlan, noUp bool, o *sim.Outcome, sigParts *[]string) []obsLi
 					}
 				}
 				o.Probe("listing_under_fault_discloses_nothing")
+			}
+			if st.Op == "sign" && res.err == nil && res.panicked == nil && !wasLocked {
+				// whatever the underlying agent refused meanwhile: no signature with a certificate outside its validity
+				if id := c.ident(st.Role, 0, now); id.IsCert && shimmodel.Validity(id.VA, id.VB, now) == shimmodel.Invalid {
+					o.Fail("C07.sign_invalid", "signed_invalid_under_fault:"+c.certs[st.Role].Window, i, "%s: during this call the underlying agent failed a request (%v); the call returned a signature made with certificate %s (window %s), which is outside its validity at simulated time +%ds", tag, s.firedLog, st.Role, c.certs[st.Role].Window, now-epoch)
+				}
 			}
 			s.resync(pre, st, o, i, tag, wasLocked, res.err == nil)
 			if s.closed {
